@@ -122,6 +122,17 @@ CHECKS = {
              "random points; monitors: observers' logs, saved file = blocks read and valid wav, all threads ended.",
         ref="DESIGN.md 5/C14", technique="TLA+ model checking incl. liveness (TLC) + systematic stop injection into controlled real threads + trace validation",
         note=WORKERS_NOTE, cat="model_checking"),
+    "C15": dict(
+        text="Cli.tla maps the set of options given on the command line to the API keyword arguments (documented defaults for absent "
+             "options), exit status, printing and files; TLC enumerates every option vector with at most 2 (quick) / 3 (thorough) options "
+             "present x palette values and exports the prescription; each vector is executed with auditok.cmdline.main (wav / raw / stdin, "
+             "short and long option names, %S / %I / %h:%m:%s.%i, three printf templates) and TLC (CliTrace) compares exit status, line "
+             "count, ids, every printed time with the exact instant of the API detection obtained with the prescribed kwargs, field ranges "
+             "and recomposition, and the projected -O / -o / -j files; unknown directives must raise.",
+        ref="DESIGN.md 5/C15", technique="TLA+ enumeration of option vectors (TLC) + one command-line execution per vector judged by TLC against the API",
+        note="Trusted: TLC/SANY, CPython, argparse; main() runs in worker processes with its 1 s poll shortened. Printed whole-millisecond values must "
+             "equal int(v*1000) of the float v the API reports and lie within one millisecond below the exact instant (O2); %S within half a "
+             "millisecond (+5%). Microphone input, -E/-C/-p/--save-image (PyAudio, shell commands, matplotlib) are not exercised."),
     "C16": dict(
         text="Region.tla states slicing twice: implementation-shaped (byte offsets, unnormalised stop) and declarative (Python slicing on "
              "samples); TLC checks them equal for every (length, bytes-per-sample, start, stop) of the bound and enumerates the seconds view "
